@@ -2,7 +2,9 @@
     Only property theorems live here, each closed by [exact] and followed by Print Assumptions.
     Generic over a semiring [o : sr_ops R] with the laws [sr_ring o] (commutative semiring) and
     [sr_ordered o] (monotone operations, zero least) as premises; the law records of the three
-    carriers are proved in Proofs/SemiringLaws.v (C08).  [Zk o G w k] is the k-th Kleene iterate
+    carriers are proved in Proofs/SemiringLaws.v (C08) and the carrier instances below
+    (C02_trop_exact, C02_real_enclosure_sound, C02_fp_check_*_sound, section 7) are composed with
+    them in Proofs/Instances_kleene.v, so they carry NO law premise.  [Zk o G w k] is the k-th Kleene iterate
     of the grammar's equations [step o G w] from zero (= the sum of the weights of the
     derivation trees of depth <= k: Proofs/SP_trees.v). *)
 From Coq Require Import QArith List Arith Bool PeanoNat.
@@ -12,6 +14,7 @@ Require Import Fggs.Model.SCC Fggs.Model.SumProduct Fggs.Model.SumProductCheck
 Require Import Fggs.Proofs.SP_mono Fggs.Proofs.Kleene_proofs Fggs.Proofs.Kleene_control Fggs.Proofs.Kleene_linear
                Fggs.Proofs.Kleene_fixpoint Fggs.Proofs.Kleene_check Fggs.Proofs.Kleene_scc.
 Require Import Fggs.Model.Semiring.
+Require Import Fggs.Proofs.SP_trees Fggs.Proofs.Instances_kleene.
 Local Open Scope nat_scope.
 
 (** * 1. monotonicity *)
@@ -183,9 +186,8 @@ Theorem C02_bool_exact :
 Proof. exact enclosure_bool_exact. Qed.
 Print Assumptions C02_bool_exact.
 
-(** Viterbi (the instance used by [fp_check_trop]) *)
+(** Viterbi (the instance used by [fp_check_trop]); no premises (laws: Proofs/SemiringLaws.v) *)
 Theorem C02_trop_exact :
-  sr_ring trop_ops -> sr_ordered trop_ops ->
   forall G w K lo u,
     wf_grammar G = true ->
     enclosure trop_ops (fun x => x) (fun x => x) tleb G w K = Some (lo, u) ->
@@ -199,12 +201,11 @@ Theorem C02_trop_exact :
                        tle (Zk trop_ops G w k X xi) (env_of trop_ops lo X xi))
     /\ (exists j, j <= K /\ forall X xi, In X (nonterminals G) -> In xi (all_assts (lshape G X)) ->
                                          env_of trop_ops lo X xi = Zk trop_ops G w (4 * j) X xi).
-Proof. exact enclosure_trop_exact. Qed.
+Proof. exact trop_enclosure_exact. Qed.
 Print Assumptions C02_trop_exact.
 
-(** Real / Log (the instance used by [fp_check_real]) *)
+(** Real / Log (the instance used by [fp_check_real]); no premises (laws: Proofs/SemiringLaws.v) *)
 Theorem C02_real_enclosure_sound :
-  sr_ring ereal_ops -> sr_ordered ereal_ops ->
   forall G w K lo u,
     wf_grammar G = true ->
     enclosure ereal_ops rd_real infl_real eleb G w K = Some (lo, u) ->
@@ -220,7 +221,7 @@ Theorem C02_real_enclosure_sound :
                      ele (env_of ereal_ops lo X xi) (env_of ereal_ops u X xi))
     /\ (forall X xi, In X (nonterminals G) -> In xi (all_assts (lshape G X)) ->
                      ele (step ereal_ops G w (env_of ereal_ops u) X xi) (env_of ereal_ops u X xi)).
-Proof. exact enclosure_real_sound. Qed.
+Proof. exact real_enclosure_sound. Qed.
 Print Assumptions C02_real_enclosure_sound.
 
 (** the instance-specific side conditions *)
@@ -483,7 +484,6 @@ Print Assumptions C02_fp_check_bool_sound.
 (** Viterbi: the least fixed point lies inside every observed interval *)
 Theorem C02_fp_check_trop_sound :
   forall gw ws meth kmax tol K warned obs,
-    sr_ring trop_ops -> sr_ordered trop_ops ->
     fp_check_trop (gw, ws, (meth, kmax, tol), K, (false, warned, true, obs)) = 0 ->
     let G := grammar_of_w gw in
     let w := env_of trop_ops (weights_tmt trop_of G ws) in
@@ -496,13 +496,12 @@ Theorem C02_fp_check_trop_sound :
              /\ length ob = length (all_assts (lshape G X))
              /\ forall i xi b, nth_error (all_assts (lshape G X)) i = Some xi -> nth_error ob i = Some b ->
                                tle (trop_of (fst b)) (mu X xi) /\ tle (mu X xi) (trop_of (snd b)).
-Proof. exact fp_check_trop_sound. Qed.
+Proof. exact trop_fp_check_sound. Qed.
 Print Assumptions C02_fp_check_trop_sound.
 
 (** Real / Log: every observed interval meets a certified enclosure [lo, u] of the least fixed point *)
 Theorem C02_fp_check_real_sound :
   forall gw ws meth kmax tol K warned obs,
-    sr_ring ereal_ops -> sr_ordered ereal_ops ->
     fp_check_real (gw, ws, (meth, kmax, tol), K, (false, warned, true, obs)) = 0 ->
     let G := grammar_of_w gw in
     let w := env_of ereal_ops (weights_tmt ereal_of G ws) in
@@ -516,7 +515,7 @@ Theorem C02_fp_check_real_sound :
              /\ length ob = length (all_assts (lshape G X))
              /\ forall i xi b, nth_error (all_assts (lshape G X)) i = Some xi -> nth_error ob i = Some b ->
                                compat_real (lo X xi) (u X xi) b = true.
-Proof. exact fp_check_real_sound. Qed.
+Proof. exact real_fp_check_sound. Qed.
 Print Assumptions C02_fp_check_real_sound.
 
 (** verdict 0 also means: ValueError was raised iff expected, and a provable budget
@@ -532,3 +531,116 @@ Theorem C02_fp_check_control :
          /\ (raised = false -> must_warn o far tol G meth kmax order (weights_tmt of_wire G ws) = true -> warned = true).
 Proof. exact (@fp_check_zero_control). Qed.
 Print Assumptions C02_fp_check_control.
+
+(** * 7. Kleene iterate = bounded-depth derivation sum; carrier instances without premises *)
+(** the k-th iterate of the grammar's equations from zero is the sum of the weights of the
+    derivation trees of depth <= k, each listed exactly once (any grammar, recursive or not; also
+    stated in Props/C01.v); with sections 3 and 6: the certified enclosures / the least fixed
+    point are the limits of these bounded-depth sums *)
+Theorem C02_kleene_is_bounded_depth :
+  forall R (o : sr_ops R), sr_ring o ->
+  forall G w k X xi, is_term G X = false ->
+    Zk o G w k X xi = sumS o (enum_trees G k X xi) (weight o G w)
+    /\ NoDup (enum_trees G k X xi)
+    /\ forall t, In t (enum_trees G k X xi) <-> wf_dtree G X xi t /\ depth t <= k.
+Proof. exact (fun R o H => @kleene_is_bounded_depth R o H). Qed.
+Print Assumptions C02_kleene_is_bounded_depth.
+
+Theorem C02_kleene_is_bounded_depth_real :
+  forall G w k X xi, is_term G X = false ->
+    Zk ereal_ops G w k X xi = sumS ereal_ops (enum_trees G k X xi) (weight ereal_ops G w)
+    /\ NoDup (enum_trees G k X xi)
+    /\ forall t, In t (enum_trees G k X xi) <-> wf_dtree G X xi t /\ depth t <= k.
+Proof. exact real_kleene_is_bounded_depth. Qed.
+Print Assumptions C02_kleene_is_bounded_depth_real.
+
+Theorem C02_kleene_is_bounded_depth_viterbi :
+  forall G w k X xi, is_term G X = false ->
+    Zk trop_ops G w k X xi = sumS trop_ops (enum_trees G k X xi) (weight trop_ops G w)
+    /\ NoDup (enum_trees G k X xi)
+    /\ forall t, In t (enum_trees G k X xi) <-> wf_dtree G X xi t /\ depth t <= k.
+Proof. exact trop_kleene_is_bounded_depth. Qed.
+Print Assumptions C02_kleene_is_bounded_depth_viterbi.
+
+Theorem C02_kleene_is_bounded_depth_bool :
+  forall G w k X xi, is_term G X = false ->
+    Zk bool_ops G w k X xi = sumS bool_ops (enum_trees G k X xi) (weight bool_ops G w)
+    /\ NoDup (enum_trees G k X xi)
+    /\ forall t, In t (enum_trees G k X xi) <-> wf_dtree G X xi t /\ depth t <= k.
+Proof. exact bool_kleene_is_bounded_depth. Qed.
+Print Assumptions C02_kleene_is_bounded_depth_bool.
+
+(** a Kleene iterate that is a fixed point is the least fixed point: Real/Log and Viterbi *)
+Theorem C02_Zk_fixed_is_least_real :
+  forall G w k, wf_grammar G = true ->
+    env_eq_on G (Zk ereal_ops G w k) (Zk ereal_ops G w (S k)) ->
+    env_eq_on G (step ereal_ops G w (Zk ereal_ops G w k)) (Zk ereal_ops G w k)
+    /\ (forall v : env (R:=ereal), env_le_on ereal_ops G (step ereal_ops G w v) v -> env_le_on ereal_ops G (Zk ereal_ops G w k) v)
+    /\ (forall j, env_le_on ereal_ops G (Zk ereal_ops G w j) (Zk ereal_ops G w k)).
+Proof. exact real_Zk_fixed_is_least. Qed.
+Print Assumptions C02_Zk_fixed_is_least_real.
+
+Theorem C02_Zk_fixed_is_least_viterbi :
+  forall G w k, wf_grammar G = true ->
+    env_eq_on G (Zk trop_ops G w k) (Zk trop_ops G w (S k)) ->
+    env_eq_on G (step trop_ops G w (Zk trop_ops G w k)) (Zk trop_ops G w k)
+    /\ (forall v : env (R:=trop), env_le_on trop_ops G (step trop_ops G w v) v -> env_le_on trop_ops G (Zk trop_ops G w k) v)
+    /\ (forall j, env_le_on trop_ops G (Zk trop_ops G w j) (Zk trop_ops G w k)).
+Proof. exact trop_Zk_fixed_is_least. Qed.
+Print Assumptions C02_Zk_fixed_is_least_viterbi.
+
+(** fixed_point's loop with an exact stopping test, Viterbi: if it does not warn it returns the
+    least fixed point *)
+Theorem C02_fixed_point_quiet_is_lfp_viterbi :
+  forall G w (close : env (R:=trop) -> env (R:=trop) -> bool) kmax y0 y1,
+    wf_grammar G = true ->
+    (forall x y, close x y = true -> env_eq_on G x y) ->
+    fixed_point_loop (step trop_ops G w) close kmax (zero_env trop_ops) = Some (y0, y1, false) ->
+    exists k, k <= kmax /\ y0 = Zk trop_ops G w k /\ y1 = Zk trop_ops G w (S k)
+      /\ env_eq_on G (step trop_ops G w y0) y0
+      /\ (forall v : env (R:=trop), env_le_on trop_ops G (step trop_ops G w v) v -> env_le_on trop_ops G y0 v)
+      /\ (forall j, env_le_on trop_ops G (Zk trop_ops G w j) y0).
+Proof. exact trop_fixed_point_quiet_is_lfp. Qed.
+Print Assumptions C02_fixed_point_quiet_is_lfp_viterbi.
+
+(** whatever fixed_point's loop returns is below every pre-fixed point: Real/Log *)
+Theorem C02_fixed_point_result_below_prefix_real :
+  forall G w (close : env (R:=ereal) -> env (R:=ereal) -> bool) kmax y0 y1 warned,
+    wf_grammar G = true ->
+    fixed_point_loop (step ereal_ops G w) close kmax (zero_env ereal_ops) = Some (y0, y1, warned) ->
+    forall v : env (R:=ereal), env_le_on ereal_ops G (step ereal_ops G w v) v ->
+      env_le_on ereal_ops G y0 v /\ env_le_on ereal_ops G y1 v.
+Proof. exact real_fixed_point_result_below_prefix. Qed.
+Print Assumptions C02_fixed_point_result_below_prefix_real.
+
+(** SCC decomposition, per carrier *)
+Theorem C02_scc_decomposition_real :
+  forall G w, wf_grammar G = true ->
+  forall (mu : env (R:=ereal)) order acc final,
+    is_lfp_on ereal_ops G (nonterminals G) (step ereal_ops G w) mu ->
+    exact_run ereal_ops G w order acc final -> dep_ordered G [] order ->
+    (forall X, In X (nonterminals G) -> In X (concat order)) ->
+    forall X xi, In X (nonterminals G) -> In xi (all_assts (lshape G X)) -> final X xi = mu X xi.
+Proof. exact real_scc_decomposition. Qed.
+Print Assumptions C02_scc_decomposition_real.
+
+Theorem C02_scc_decomposition_viterbi :
+  forall G w, wf_grammar G = true ->
+  forall (mu : env (R:=trop)) order acc final,
+    is_lfp_on trop_ops G (nonterminals G) (step trop_ops G w) mu ->
+    exact_run trop_ops G w order acc final -> dep_ordered G [] order ->
+    (forall X, In X (nonterminals G) -> In X (concat order)) ->
+    forall X xi, In X (nonterminals G) -> In xi (all_assts (lshape G X)) -> final X xi = mu X xi.
+Proof. exact trop_scc_decomposition. Qed.
+Print Assumptions C02_scc_decomposition_viterbi.
+
+Theorem C02_scc_decomposition_bool :
+  forall G w, wf_grammar G = true ->
+  forall (mu : env (R:=bool)) order acc final,
+    is_lfp_on bool_ops G (nonterminals G) (step bool_ops G w) mu ->
+    exact_run bool_ops G w order acc final -> dep_ordered G [] order ->
+    (forall X, In X (nonterminals G) -> In X (concat order)) ->
+    forall X xi, In X (nonterminals G) -> In xi (all_assts (lshape G X)) -> final X xi = mu X xi.
+Proof. exact bool_scc_decomposition. Qed.
+Print Assumptions C02_scc_decomposition_bool.
+
